@@ -505,7 +505,7 @@ class Evaluator:
                 return v[lo:hi]
             try:
                 return v[self.expr(e.slice, env)]
-            except (IndexError, KeyError) as ex:
+            except (IndexError, KeyError, TypeError) as ex:
                 raise _Raise(type(ex).__name__)
         if isinstance(e, ast.Attribute):
             if isinstance(e.value, ast.Name) and self.cls and e.value.id == self.cls and e.value.id not in env:
